@@ -115,6 +115,58 @@ def inv_holds(case):
     return all(c in ids for _, c in case["init"]["assoc"])
 
 
+def compact_id_leg(out, n):
+    """ids of variable length (numeric database keys used as ids): one trace id may be a prefix of another and a
+    (trace id, span id) pair may share its concatenation with another pair.  Real IngestData + SQLDataHolder on a file,
+    compared with the first-occurrence specification on the raw strings."""
+    import sqlite3
+    from tel2puml.otel_to_pv.otel_to_pv_types import OTelEvent
+    from tel2puml.otel_to_pv.ingest_otel_data import IngestData
+    rnd = random.Random(out.seed * 50423 + 1010)
+    bad = []
+    with common.Scratch("c10c") as d:
+        for k in range(n):
+            jobs = rnd.sample(["1", "12", "2", "21", "121"], 3)
+            stream, seen = [], set()
+            for j in jobs:
+                ids = rnd.sample(["3", "23", "13", "1", "31", "213"], rnd.choice([2, 3]))
+                root = None
+                for x in ids:
+                    sid = x if (x not in seen or rnd.random() < 0.15) else x + "0"
+                    stream.append((j, sid, root))
+                    seen.add(sid)
+                    root = root or sid
+            if rnd.random() < 0.4:
+                stream.insert(rnd.randrange(len(stream) + 1), rnd.choice(stream))      # a genuine re-delivery
+            path = str(d / f"c{k}.db")
+            h = S.holder(f"sqlite:///{path}", rnd.choice([1, 2, 3, 1000]))
+            try:
+                IngestData([OTelEvent(job_name="n", job_id=j, event_type="T", event_id=i, start_timestamp=1, end_timestamp=2,
+                                      application_name="a", parent_event_id=p) for j, i, p in stream], h).load_to_data_holder()
+                status = "ok"
+            except Exception as e:  # noqa
+                status = "ERR:" + type(e).__name__
+            try:
+                h.session.close(); h.engine.dispose()
+            except Exception:  # noqa
+                pass
+            con = sqlite3.connect(path)
+            nodes = con.execute("SELECT event_id, job_id, parent_event_id FROM nodes ORDER BY id").fetchall()
+            assoc = sorted(con.execute('SELECT parent_id, child_id FROM "NODE_ASSOCIATION"').fetchall())
+            con.close()
+            os.remove(path)
+            want, have = [], set()
+            for j, i, p in stream:
+                if i not in have:
+                    have.add(i)
+                    want.append((i, j, p))
+            want_assoc = sorted((p, i) for i, j, p in want if p)
+            if status != "ok" or nodes != want or assoc != want_assoc:
+                bad.append(dict(kind="store differs from the ingestion specification (variable-length ids)", stream=stream, status=status,
+                                stored=nodes, expected=want, links=assoc, expected_links=want_assoc))
+    return dict(cases=n, bad=bad)
+
+
 def cases_v(items) -> str:
     rows = []
     for case, (status, nodes, assoc) in items:
@@ -174,6 +226,10 @@ def run(out: common.Outcome, explore: int = 0) -> None:
         out.violation({"kind": "store differs from the ingestion specification", "why": why, "case": cases[k],
                        "implementation": {"status": results[k][0], "nodes": results[k][1], "assoc": results[k][2]},
                        "expected": dict(zip(("nodes", "assoc"), spec(cases[k])))})
+    cl = compact_id_leg(out, 60 if out.tier == "quick" else 1500)
+    for b in cl["bad"][:2]:
+        out.violation(b)
+    out.coverage["compact_id_streams"] = cl["cases"]
     if ok and not out.violations and (dis or coq_fail):
         out.violation({"kind": "correspondence-broken",
                        "relation": "tables after IngestData.load_to_data_holder == V.Store.Ingest.ingest_runs",
@@ -206,6 +262,10 @@ def run(out: common.Outcome, explore: int = 0) -> None:
 
 
 def replay(out: common.Outcome, rp: dict) -> None:
+    if "stream" in rp:
+        print(rp["kind"], rp["stored"], "expected", rp["expected"])
+        out.coverage.update({"evaluations": 1, "distinct_nontrivial": 0, "rule": "replay", "samples": [rp["kind"]]})
+        return
     common.setup_impl_path()
     import tel2puml.events  # noqa
     case = rp["case"]
